@@ -25,6 +25,22 @@ WORLD_NOTE = ('Modelled not verified: the dependency check inside BoundRoute.__i
               'application and of every Route object look for. ')
 
 CLAIMED = {
+ 'C12': dict(
+   text=('PARTIAL. Theorems (Props/C12.v) over Model/Conc.v (any number of threads, each a finite sequence of atomic steps; the '
+         'application frozen; the only step touching shared state is the fetch-and-increment of the request counter): for EVERY '
+         'schedule each thread computes exactly what it computes alone (its state depends on how often it was scheduled, never on '
+         'the interleaving or on other threads) and the identifiers handed out are pairwise distinct. What licenses this step shape '
+         'for the code is the obligation C12_footprint_local on the write footprint REGENERATED from the request path of the source '
+         '(every assignment / augmented assignment / del / mutating call / global declaration of 19 functions, classified by the '
+         'root of its target; the counter is an itertools.count fetched once per request). Search/correspondence side: a '
+         'deterministic scheduler (sys.settrace line events inside clastic/ and the generated chain code) runs request pairs '
+         'under every single-preemption schedule, seeded multi-preemption schedules and free-running stress against one '
+         'application; responses must equal the solo runs, ids must be unique; a violation is reported with the schedule as replay.'),
+   note=COMMON_NOTE + 'Cannot be exhibited by the model: thread switches inside C code and third-party Python (werkzeug Request '
+        'laziness), the atomicity of itertools.count.__next__ (assumed, GIL), aliasing of a per-request object with a shared one (the '
+        'footprint classifies by syntactic root; the scheduler runs look for it dynamically), thread-safety of user middlewares.',
+   technique='Coq proof (schedule-indexed invariants over an interleaving semantics) + translator-generated write footprint as proof obligation + deterministic-scheduler search for failing interleavings',
+   design='6/C12'),
  'C13': dict(
    text=('PARTIAL. Theorems (Props/C13.v) over Model/Wsgi.v: in the wrapper stack built by Application.__init__ every middleware '
          'type contributes its WSGI wrapper at most once, and the application-level middlewares come first in list order (first '
